@@ -179,10 +179,11 @@ class Refs(object):
         self._rec_direct[cidx] = (out, failed)
         return out, failed
 
-    def admissible(self, prog, x):
+    def admissible(self, prog, x, multi=False):
         try:
             with numpy.errstate(all='ignore'):
-                regs = programs.run_program(prog, [numpy.array(x, dtype=float)], self.B)
+                ins = [numpy.array(v, dtype=float) for v in x] if multi else [numpy.array(x, dtype=float)]
+                regs = programs.run_program(prog, ins, self.B)
         except Exception:
             return False
         # eigenvectors / singular vectors are not differentiable where eigenvalues coincide
@@ -270,6 +271,24 @@ class Refs(object):
         """Expected driver result from forward mode / the exact model."""
         name = step['name']
         out = {}
+        if name == 'gradient_list':
+            # forward mode, one independent at a time; the others ride along as constants
+            al = self.al
+            xs = [numpy.array(v, dtype=float) for v in step['x']]
+            grads = []
+            for j, xj in enumerate(xs):
+                seeds = []
+                for i, xi in enumerate(xs):
+                    if i == j:
+                        seeds.append(al.UTPM.init_jacobian(xi))
+                    else:
+                        d = numpy.zeros((2, len(xj), len(xi)))
+                        d[0, :, :] = xi
+                        seeds.append(al.UTPM(d))
+                y = self.direct(prog, seeds)[0]
+                grads.append(numpy.asarray(al.UTPM.extract_jacobian(y), dtype=float).reshape(len(xj)))
+            out['forward'] = enc(grads)
+            return out
         scalar = len(prog['out_shapes'][0]) == 0
         if name == 'jacobian_utpm':
             data = numpy.array(step['x'], dtype=float)
@@ -552,6 +571,8 @@ class Refs(object):
                 return driver_thunk(al, cg, step)()[0]
 
             def pristine():
+                if step['name'] == 'gradient_list':
+                    return call(self.record(prog, [numpy.array(v, dtype=float) for v in step['x']]))
                 x = numpy.array(step['x'], dtype=float)
                 x0 = al.UTPM(x) if step['name'] == 'jacobian_utpm' else x
                 return call(self.record(prog, [x0]))
@@ -575,7 +596,7 @@ class Refs(object):
             base = numpy.array(step['x'], dtype=float)[0, 0]
         else:
             base = step['x']
-        if not self.admissible(prog, base):
+        if not self.admissible(prog, base, multi=(name == 'gradient_list')):
             self.count('truth_skipped:inadmissible')
             return
         models = self.truth(prog, step)
